@@ -198,6 +198,15 @@ def run_semantic(ctx, progs):
         for body in ('Properties exists', 'when Properties.Zzz exists {\n      Properties exists\n    }'):
             t = gen.TYPES[0]
             tb.append(('rule r {\n  %s {\n    %s\n  }\n}\n' % (t, body), "rule r {\n  Resources.*[ Type == '%s' ] {\n    %s\n  }\n}\n" % (t, body), d))
+    # `.n` against `[n]` with every kind of index: zero, positive, NEGATIVE, beyond the end, after `[*]`, twice in a row, in a `let`
+    idx_docs = [{'l': [1, 2, 3], 'n': [[1, 2], [3, 4]], 'm': {'k': [5, 6]}}, {'l': [9], 'n': [[7]], 'm': {'k': []}}, {'l': [], 'n': [], 'm': {}}]
+    idx_bodies = ['l.%s == 2', 'l.%s exists', 'n.%s.%s == 4', 'n[*].%s >= 2', 'm.k.%s == 6 or l.%s == 1', 'some n[*].%s == 3', 'n.%s[*] > 0']
+    for body in idx_bodies:
+        for i1 in ('0', '1', '-1', '-2', '5', '-7'):
+            a = 'let x = l.%s\nrule r {\n  %s\n  %%x exists\n}\n' % (i1, body.replace('%s', i1))
+            b = 'let x = l[%s]\nrule r {\n  %s\n  %%x exists\n}\n' % (i1, body.replace('.%s', '[' + i1 + ']'))
+            for d in idx_docs:
+                tb.append((a, b, d))
     for i, (a, b, d) in enumerate(tb):
         pairs.append((a, json.dumps(d))); meta.append((10 ** 6 + i, 'base', a))
         pairs.append((b, json.dumps(d))); meta.append((10 ** 6 + i, 'equivalent-form', b))
